@@ -1,6 +1,9 @@
 SPECIFICATION Spec
 CONSTANTS
-  Jobs = {j1, j2, j3}
+  Jobs = {"j1", "j2", "j3"}
+  Procs = {p1, p2}
+  Outcomes = {"ok"}
+  Collect = TRUE
   FixDrain = FALSE
-INVARIANTS AtMostOnce AllAcceptedRun Completes
+INVARIANTS AtMostOnce AllAcceptedRun AllSurfaced Completes
 CHECK_DEADLOCK FALSE
